@@ -687,11 +687,29 @@ def evaluate(ctx, cases, bouts, oouts, mouts, limit=25):
                     ctx.violation("brush's result differs from bash's, and from the model of its code", case, kind="property")
 
 
+MY_LEAN = ["Model/ParamOps.lean", "Spec/ParamOps.lean", "Proofs/ParamOps.lean", "Props/C06.lean", "Drv/C06.lean",
+           "Model/Pattern.lean", "Spec/Glob.lean"]     # the last two are C08's, imported by the driver
+
+
+def _sync_private_lean():
+    """VERIF_REPO runs use a private copy of the lake project made once; bring this property's sources up to date."""
+    src = getattr(lib, "LEAN_SRC", None)
+    if not src or os.environ.get("VERIF_LEAN") or os.path.abspath(lib.LEAN) == os.path.abspath(src):
+        return
+    for rel in MY_LEAN:
+        a, b = os.path.join(src, "BrushVerif", rel), os.path.join(lib.LEAN, "BrushVerif", rel)
+        if os.path.exists(a) and (not os.path.exists(b) or open(a, "rb").read() != open(b, "rb").read()):
+            os.makedirs(os.path.dirname(b), exist_ok=True)
+            with open(b, "wb") as f:
+                f.write(open(a, "rb").read())
+
+
 def run(ctx):
     ok, out = lib.cargo_build([BIN])
     if not ok:
         lib.log(out[-4000:])
         ctx.broken.append("harness c06 does not build against the current tree: " + lib._first_errors(out))
+    _sync_private_lean()
     ctx.proof_stage()
     if not ok:
         return
